@@ -1,8 +1,8 @@
 /-
 L1 model of `req_sketch` (req/include/req_sketch_impl.hpp): update / merge / compress, direct `get_rank`,
 the const_iterator exactly as coded, the sorted view (shared `DS.SortedView`), quantile / CDF / PMF, rank bounds.
-Core Lean only.  Coins are an explicit argument: a supply `List Bool` (exhausted supply = `false`), threaded through
-`Acc` together with the number of coins drawn and ghost information.
+Core Lean only.  Coins are an explicit argument: a supply `Nat → Bool` (from a finite vector: exhausted supply = `false`) with a cursor,
+threaded through `Acc` together with the number of coins drawn and ghost information.
 -/
 import DSModel.Req.Compactor
 import DSModel.SortedView
@@ -24,17 +24,20 @@ structure Sketch (ρ : Type) where
 `oddConst` (ghost) = some compaction at an odd state used a coin deriving from no draw; `throws` = the code would have
 thrown "compaction range error" -/
 structure Acc where
-  coins : List Bool
+  coins : Nat → Bool         -- the i-th coin that `random_bit()` returns (never consumed: `used` is the cursor)
   used : Nat := 0
   lv : List Nat := []
   oddConst : Bool := false
   throws : Bool := false
 
-def Acc.peek (a : Acc) : Bool := a.coins.headD false
+def Acc.peek (a : Acc) : Bool := a.coins a.used
+
+/-- coin supply from a finite vector (exhausted supply = `false`) -/
+def Acc.init (coins : List Bool) : Acc := { coins := fun i => coins.getD i false }
 
 /-- consume one coin, drawn by a compactor of level `lvl` -/
 def Acc.draw (a : Acc) (lvl : Nat) : Acc :=
-  { a with coins := a.coins.tail, used := a.used + 1, lv := a.lv ++ [lvl] }
+  { a with used := a.used + 1, lv := a.lv ++ [lvl] }
 
 /-- bookkeeping after one `compact` of a level-`lvl` compactor -/
 def Acc.afterCompact (a : Acc) (lvl : Nat) (fresh oddConst rangeOk : Bool) : Acc :=
